@@ -442,3 +442,25 @@ PROPS["C11"] = dict(
                "silent on the unchanged tree); the claim about static scheduling is re-checked by tools/check_omp_constructs.py.",
     assumptions=["no schedule(dynamic/guided), tasks, atomics or locks in the compiled, called code paths (checked mechanically)"],
 )
+
+PROPS["C12"] = dict(
+    harness="c12_repro", flavour="rel",
+    quick=dict(workers=8, cases=480, min_nontrivial=200),
+    thorough=dict(workers=8, cases=24000, min_nontrivial=3000, budget_s=3300),
+    rule="Operators and shape classes as C11 (residual, smoothers, direct solvers, level caches, transfers below and above "
+         "10000 nodes, vector kernels with n in {0,1,7,9999,10000,10001,30000}, setup()+solve() with a fixed number of cycles "
+         "and thread reduction factors) in the project's own build flavour (g++/libgomp); thread counts t1,t2 from "
+         "{1,2,3,4,5,8,16,32} (more threads than lines or cores). Each case runs three times with t1 threads (bitwise "
+         "equality demanded, except scalar reductions and solves with >2 threads) and once with t2 threads (difference <= "
+         "1e-11 relative for matrix-free operators, 1e-8 for line/direct solves, 1e-6 for solves); kernels are compared with "
+         "a long double reference within (n+4)*eps*sum|terms| and element-wise kernels bitwise with the step-by-step "
+         "definition. Non-trivial: some thread count >= 2. Distinct: (operator, thread counts, shape/size).",
+    technique="property-based testing (rapidcheck); metamorphic relations (repeat run, change thread count) and a long double reference for the kernels",
+    level_text="Generated operator/shape/thread-count cases are executed repeatedly and with different thread counts; outputs "
+               "must be bit-identical run to run and equal up to re-association across thread counts; the vector kernels "
+               "are compared with their mathematical definition on both sides of the 10000-element threshold. Run-to-run "
+               "reproducibility can only be sampled.",
+    level_note="Trusted: the tolerance classes (observed maxima in the evidence). OpenMP does not promise bitwise reproducible "
+               "reductions, so scalar kernel results are compared with a rounding bound, not bitwise.",
+    assumptions=["bitwise run-to-run equality is demanded of vector outputs, not of parallel scalar reductions"],
+)
